@@ -100,7 +100,7 @@ def main():
         }],
         "checks": checks,
         "not_applicable": [],
-        "notes": "Technique family: runtime monitoring and sanitizers. Exit codes: 0 held, 1 violation (VIOLATION line + replay file), 2 inconclusive (never folded into the others). Known findings: /verif/KNOWN_FINDINGS.txt (three genuine defects, all repaired by fix: commits in /repo). Self-validation: mutants/RESULTS.md, seeded/MATRIX.md (131 independently seeded breaking changes, all caught; 24 property-preserving changes, all silent). VERIF_SEED seeds the random part of every workload; VERIF_SCALE (percent) scales it.",
+        "notes": "Technique family: runtime monitoring and sanitizers. Exit codes: 0 held, 1 violation (VIOLATION line + replay file), 2 inconclusive (never folded into the others). Known findings: /verif/KNOWN_FINDINGS.txt (four genuine defects, all repaired by fix: commits in /repo). Self-validation: mutants/RESULTS.md, seeded/MATRIX.md (155 independently seeded breaking changes, all caught; 48 property-preserving changes). VERIF_SEED seeds the random part of every workload; VERIF_SCALE (percent) scales it.",
     }
     with open(os.path.join(VERIF, "MANIFEST.json"), "w") as f:
         json.dump(m, f, indent=1)
